@@ -80,7 +80,7 @@ def run(ctx):
         return g
     b += [("extension-boundary-exhaustion", wrap(c08.boundary_history)) for _ in range(10 if ctx.tier == "quick" else 200)]
     b += [("forced-exhaustion", wrap(c08.forced_history)) for _ in range(14 if ctx.tier == "quick" else 280)]
-    b += [("multi-page", c04.big_volume) for _ in range(2 if ctx.tier == "quick" else 40)]
+    b += [("multi-page", c04.big_volume) for _ in range(4 if ctx.tier == "quick" else 40)]
     b += [("rdb-partition", c03.part_history) for _ in range(3 if ctx.tier == "quick" else 60)]
     # undelete: a refused undelete keeps nothing allocated, an accepted one takes back exactly the blocks of the entry
     from . import undel
